@@ -196,10 +196,12 @@ class Store:
             if id(n) in seen:
                 continue
             seen.add(id(n))
+            # (the store holds its own copies of the roots: equal to, but not the same objects as, the library's)
+            cp = lambda b: bytes(bytearray(b))
             if n.is_leaf():
-                self.leaves.add(bytes(n.merkle_root()))
+                self.leaves.add(cp(n.merkle_root()))
             else:
-                self.pairs[bytes(n.merkle_root())] = (bytes(n.get_left().merkle_root()), bytes(n.get_right().merkle_root()))
+                self.pairs[cp(n.merkle_root())] = (cp(n.get_left().merkle_root()), cp(n.get_right().merkle_root()))
                 st.append(n.get_left())
                 st.append(n.get_right())
         self.ambiguous = bool(self.leaves & set(self.pairs))
